@@ -1,1 +1,2 @@
 import JdSpec.CanonEq
+import JdSpec.HunkSem
